@@ -43,7 +43,7 @@ func main() {
 		"parser's naming rule and the check is the relational oracle (den_top) on the printed rows; " +
 		"non-trivial = at least one output row; distinct by full case text."
 	n := f.Cases(220, 2200)
-	cases, err := relq.Generate(rng, n, relq.Profile{GroupBias: 9, MaxDepth: 1, AllowErrors: true, AliasShapes: true, AllowTriple: true, TriggerBias: 2, SimpleEvery: 3, Floats: true}, bin, home, work)
+	cases, err := relq.Generate(rng, n, relq.Profile{GroupBias: 9, MaxDepth: 1, AllowErrors: true, AliasShapes: true, AllowTriple: true, KeyClass: "c03-key-name", TriggerBias: 2, SimpleEvery: 3, Floats: true}, bin, home, work)
 	if err != nil {
 		fmt.Fprintln(os.Stderr, err)
 		os.Exit(2)
